@@ -578,3 +578,37 @@ func HasRepeatedVar(p interface{}, initial B) bool {
 	}
 	return false
 }
+
+// Unordered returns x with every array sorted by the canonical JSON of its
+// elements (arrays are sets), for order-insensitive comparison of bindings.
+func Unordered(x interface{}) interface{} {
+	switch v := Norm(x).(type) {
+	case map[string]interface{}:
+		for k, e := range v {
+			v[k] = Unordered(e)
+		}
+		return v
+	case []interface{}:
+		for i, e := range v {
+			v[i] = Unordered(e)
+		}
+		sort.Slice(v, func(i, j int) bool { return Canon(v[i]) < Canon(v[j]) })
+		return v
+	default:
+		return v
+	}
+}
+
+// CanonSetU is CanonSet with arrays compared as sets.
+func CanonSetU(bs []B) []string {
+	set := map[string]bool{}
+	for _, b := range bs {
+		set[Canon(Unordered(map[string]interface{}(b)))] = true
+	}
+	out := make([]string, 0, len(set))
+	for k := range set {
+		out = append(out, k)
+	}
+	sort.Strings(out)
+	return out
+}
